@@ -14,7 +14,7 @@ that the palette indices of the log scalers can be compared exactly, and `scale`
 against an all-native evaluation.  `math.Pow` (heatmap legend of a
 log scale) is not ported: both sides replace that one line by `~`.
 
-Ops: `scname`, `scale`, `scalego`, `log`, `barw`, `stack`, `cell`, `strlen`, `fmtseq`, `hdr`, `tablew`, `histow`, `render histo|histo2|bars|table|heat|spark|reduce`.
+Ops: `scname`, `scale`, `scalego`, `log`, `barw`, `stack`, `cell`, `strlen`, `fmtseq`, `hdr`, `tablew`, `histow`, `render histo|histo2|bars|table|heat|spark|reduce`, `rcli`.
 -/
 namespace Rare.Drv.C14
 open Rare Rare.C14 Rare.C20 Rare.Proto
@@ -290,6 +290,50 @@ def renderReduce (env : Env) (nrows ncols : Int) (gnames gexprs dnames dexprs po
     pure (groups, r, vt)) (([] : List (Bytes × List Bytes)), r, vt)
   pure (okLines vt)
 
+/-! ### `rcli`: the real `rare reduce` command in process (`harness/corr/c14cli.go`): `--sort-reverse`, `--sort <expr>`,
+several frames.  Group values and sort keys of the generated cases are neither numbers nor weekday / month names, so
+`sorting.ByContextual()` is the byte order (the sorters are C13's business). -/
+
+/-- the sort key of a group under `--sort <tpl>` (`accumulatorGroupSortContext`): `{N}` = part N of the group key
+(from 0), `{.}` = the whole key, `{name}` = the group's current value of that data column (unknown: empty) -/
+def evalSortTpl (key : Bytes) (parts : List Bytes) (look : Bytes → Bytes) : Nat → Bytes → Bytes
+  | 0, _ => []
+  | _, [] => []
+  | fuel + 1, b :: rest =>
+    if b = 123 then
+      let body := rest.takeWhile (· != 125)
+      let after := (rest.dropWhile (· != 125)).drop 1
+      let v := if body = [46] then key
+        else match atoi body with
+          | some n => if n < 0 then [] else parts.getD n.toNat []
+          | none => look body
+      v ++ evalSortTpl key parts look fuel after
+    else b :: evalSortTpl key parts look fuel rest
+
+/-- the `less` that `aggr.Groups(sorter)` sorts with: `sorter` = byte order or its `sorting.Reverse` (`!sorter(a, b)`);
+with a sort expression the sort keys are compared, equal sort keys fall back to the group key (ascending) -/
+def reduceLess (rev : Bool) (sort : Option Bytes) (dnames : List Bytes) (a b : Bytes × List Bytes) : Bool :=
+  let s (x y : Bytes) : Bool := if rev then !bytesLt x y else bytesLt x y
+  match sort with
+  | none => s a.1 b.1
+  | some tpl =>
+    let k (g : Bytes × List Bytes) : Bytes :=
+      evalSortTpl g.1 (splitByte 0 g.1) (fun nm => match (dnames.zip g.2).find? (·.1 == nm) with | some e => e.2 | none => [])
+        (tpl.length + 1) tpl
+    if k a == k b then bytesLt a.1 b.1 else s (k a) (k b)
+
+def renderReduceCli (env : Env) (rev : Bool) (sort : Option Bytes) (nrows ncols : Int) (gnames gexprs dnames dexprs pool : List Bytes)
+    (phases : List (List (List Int))) : Res String := do
+  let r ← Reduce.new ncols nrows gnames dnames
+  let (r, vt) ← r.start env VirtualTerm.new
+  let (_, _, vt) ← phases.foldlM (fun (st : List (Bytes × List Bytes) × Reduce × VirtualTerm) ph => do
+    let groups := ph.foldl (fun g sm =>
+      reduceSample gexprs dexprs (ascii "i") g ((sm.map fun i => pool.getD (nat! i) []).intersperse [0]).flatten) st.1
+    let sorted := groups.mergeSort (fun a b => !reduceLess rev sort dnames b a)
+    let (r, vt) ← st.2.1.render env st.2.2 sorted (ascii "F0") (ascii "F1")
+    pure (groups, r, vt)) (([] : List (Bytes × List Bytes)), r, vt)
+  pure (okLines vt)
+
 /-- a step of a `tablew` script: `<row>:<cells>` or `F<idx>:<hex line>` -/
 def parseStep (s : String) : Option TableOp :=
   match s.splitOn ":" with
@@ -430,6 +474,12 @@ def handle : List String → String
     | some c, some nr, some nc, some gn, some ge, some dn, some de, some pl, some phs =>
       answer (renderReduce { color := c, unicode := true } nr nc gn ge dn de pl phs)
     | _, _, _, _, _, _, _, _, _ => "bad-args"
+  | ["rcli", flags, nrows, ncols, gnames, gexprs, dnames, dexprs, sort, pool, ph] =>
+    match flags.toNat?, nrows.toInt?, ncols.toInt?, decHexList gnames, decHexList gexprs, decHexList dnames, decHexList dexprs,
+        (if sort = "-" then some none else (Hex.dec sort).map some), decHexList pool, phases? ph with
+    | some fl, some nr, some nc, some gn, some ge, some dn, some de, some so, some pl, some phs =>
+      answer (renderReduceCli { color := fl / 2 % 2 == 1, unicode := true } (fl % 2 == 1) so nr nc gn ge dn de pl phs)
+    | _, _, _, _, _, _, _, _, _, _ => "bad-args"
   | ["render", "bars", col, uni, sc, fm, stacked, barSize, keys, subs, ph] =>
     match bit col, bit uni, scaler? sc, fmt? fm, bit stacked, barSize.toInt?, decHexList keys, decHexList subs, phases? ph with
     | some c, some u, some k, some f, some st, some bs, some ks, some ss, some phs =>
